@@ -536,6 +536,13 @@ func (g *gen) rawExpr(k kind, depth int, class string) string {
 		n := g.size("alen", 1, 3)
 		var parts []string
 		for i := 0; i < n; i++ {
+			if fs := append(g.funcs(kInt), g.funcs(kStr)...); len(fs) > 0 && g.pct("fnelem", 30) {
+				// a user function called inside a larger statement: what follows it in
+				// the same statement still belongs to that statement
+				g.feat("user_fn_call_in_array")
+				parts = append(parts, g.callUser(fs[g.intn("fn", 0, len(fs)-1)], depth-1))
+				continue
+			}
 			parts = append(parts, g.expr(kAny, depth-1, "array-element"))
 		}
 		return "[" + strings.Join(parts, ", ") + "]"
@@ -1412,6 +1419,10 @@ func (g *gen) failingPiece() {
 		{"string-minus", `s1 - 1`},
 		{"index-equals-length", "xs[3]"},
 		{"index-a-number", "n1[0]"},
+		{"method-on-unknown-identifier", "zq.Greet(1)"},
+		{"member-of-unknown-identifier", "zq.Name"},
+		{"index-of-unknown-identifier", "zq[0]"},
+		{"deep-method-on-unknown-identifier", "zq.a.b(1)"},
 	}...)
 	k := kinds[g.intn("failkind", 0, len(kinds)-1)]
 	g.p.Failing = k.kind
